@@ -7,6 +7,8 @@
    artifact (file, or directory at any depth through the manifests) and every fuel. *)
 From Coq Require Import NArith List Bool.
 From DudV Require Import Base.Bytes Base.Json Model.Fs Model.Cache Proofs.CacheDefs Proofs.CheckoutProofs.
+From Coq Require Import Relations.
+From DudV Require Import Base.Json Base.GoPath Model.Stage Model.Index Proofs.PipelineProofs Proofs.StageLiftProofs.
 Import ListNotations.
 
 (* a file placed by a successful copy checkout hashes to the recorded checksum *)
@@ -37,3 +39,29 @@ Theorem C19_success_no_corruption :
     verified H c a n /\ forall x, reaches c a x -> ~ corrupt H c x.
 Proof. exact C19_success_no_corruption. Qed.
 Print Assumptions C19_success_no_corruption.
+
+(* At the level of the COMMAND (`dud checkout --copy [targets] [-s]`: the fold over the targets,
+   every output of every visited stage, upstream stages included): success means every non-skip file
+   output of every stage visited sits in the workspace as a regular file whose bytes hash to the
+   recorded checksum - whichever output, whichever stage, in whatever order they were done. *)
+Theorem C19_command_success_verified :
+  forall (H : bytes -> bytes) idx c recursive fuel ts root root' done sp stg a,
+    checkout_targets H idx c Copy recursive fuel ts (Ok (root, [])) = Ok (root', done) ->
+    In sp done -> alookup sp idx = Some stg -> In a (s_outputs stg) ->
+    a_skip a = false -> a_isdir a = false ->
+    exists b, get root' (comps (a_path a)) = Some (File b) /\ H b = a_cs a.
+Proof. exact checkout_targets_copy_verified_file. Qed.
+Print Assumptions C19_command_success_verified.
+
+(* ... and one corrupted object reachable from ANY output of ANY stage in scope (a target, or with
+   the recursive walk anything upstream of one) makes the whole command fail - unless the workspace
+   already holds a regular file with the recorded digest, which is left alone *)
+Theorem C19_command_corrupt_fails :
+  forall (H : bytes -> bytes) idx c (recursive : bool) fuel ts root t b stg a x,
+    In t ts -> (if recursive then clos_refl_trans bytes (edge idx) b t else b = t) ->
+    alookup b idx = Some stg -> In a (s_outputs stg) -> a_skip a = false ->
+    reaches c a x -> corrupt H c x ->
+    (forall p bs, get root p = Some (File bs) -> H bs <> a_cs x) ->
+    checkout_targets H idx c Copy recursive fuel ts (Ok (root, [])) = Err.
+Proof. exact checkout_targets_corrupt_fails. Qed.
+Print Assumptions C19_command_corrupt_fails.
